@@ -19,6 +19,9 @@
 //	idem   fmt2 == fmt1 byte for byte
 //	file   format.File on a scratch file holding src: "same" when it left exactly fmt1 in the
 //	       file (valid src) / returned an error and left the file alone (invalid src)
+//	conc   the whole batch is formatted once more by 8 goroutines at the same time (each in another
+//	       order, so every source is formatted between and beside all the others): "same" when every
+//	       one of them got exactly fmt1 / the same kind of outcome again
 //	muts   per mutated source: ok|err|panic:<msg>|timeout
 //
 // The executor only executes; generation, mutation, shrinking and Coq rendering are in Python.
@@ -33,6 +36,7 @@ import (
 	"path/filepath"
 	"runtime/debug"
 	"strings"
+	"sync"
 	"time"
 
 	"github.com/zeromicro/go-zero/tools/goctl/pkg/parser/api/ast"
@@ -66,6 +70,7 @@ type Out struct {
 	F2out string   `json:"f2out"`
 	Idem  bool     `json:"idem"`
 	File  string   `json:"file"`
+	Conc  string   `json:"conc"`
 	Muts  []string `json:"muts"`
 	Err   string   `json:"err,omitempty"`
 }
@@ -423,6 +428,48 @@ func runCase(c Case) Out {
 	return o
 }
 
+// concurrent formats every source again, by several goroutines at once and in different orders:
+// format.Source has to be a function of its input (no package-level state, no reused buffer).
+func concurrent(cases []Case, outs []Out) {
+	const workers = 8
+	n := len(cases)
+	diff := make([][]string, workers)
+	var wg sync.WaitGroup
+	for g := 0; g < workers; g++ {
+		wg.Add(1)
+		go func(g int) {
+			defer wg.Done()
+			diff[g] = make([]string, n)
+			for k := 0; k < n; k++ {
+				i := (k*(2*g+1) + g*7) % n
+				if g%2 == 1 {
+					i = n - 1 - i
+				}
+				if len(cases[i].Src) == 0 || outs[i].Err != "" {
+					continue
+				}
+				text, _, outcome := formatSrc(cases[i].Src)
+				switch {
+				case outcome != outs[i].Fout:
+					diff[g][i] = "outcome " + outcome + " instead of " + outs[i].Fout
+				case outcome == "ok" && text != outs[i].Fmt1:
+					diff[g][i] = "another text than the sequential call"
+				}
+			}
+		}(g)
+	}
+	wg.Wait()
+	for i := range outs {
+		outs[i].Conc = "same"
+		for g := 0; g < workers; g++ {
+			if diff[g][i] != "" {
+				outs[i].Conc = fmt.Sprintf("worker %d: %s", g, diff[g][i])
+				break
+			}
+		}
+	}
+}
+
 func main() {
 	data, err := os.ReadFile(os.Getenv("VERIF_IN"))
 	if err != nil {
@@ -442,8 +489,13 @@ func main() {
 	w := bufio.NewWriterSize(f, 1<<20)
 	enc := json.NewEncoder(w)
 	enc.SetEscapeHTML(false)
-	for _, c := range cases {
-		if err := enc.Encode(runCase(c)); err != nil {
+	outs := make([]Out, len(cases))
+	for i, c := range cases {
+		outs[i] = runCase(c)
+	}
+	concurrent(cases, outs)
+	for _, o := range outs {
+		if err := enc.Encode(o); err != nil {
 			fmt.Fprintln(os.Stderr, "executor: marshal:", err)
 			os.Exit(3)
 		}
